@@ -901,4 +901,78 @@ theorem validMs_agree : ∀ (vs : JVals) (after : Bytes), SPlainVs vs → JValid
       exact ⟨validV_agree v _ hp.1 hv.1, validMs_agree rest _ hp.2 hv.2⟩
 end
 
+/-! ### (3) unconditional: from bytes to value on the stream path -/
+
+theorem no_bom_clash (d : Bytes) (hb : hasBom d = false) : ¬∃ r', d = 0xef :: 0xbb :: 0xbf :: r' := by
+  rintro ⟨r', rfl⟩
+  simp [hasBom] at hb
+
+/-- the slice reader model is faithful on every valid layout of the stream sub-fragment (C07_slice_faithful
+through the structural map `toDM`) -/
+theorem sliceLex_faithful (fs : JFields) (gt : Bytes) (hgt : Blank gt) (hv : JValidF fs gt)
+    (hb : hasBom (jrenderF fs ++ gt) = false) (hp : SPlainF fs) : SliceLexFaithful fs gt := by
+  have hr := renderM_agree fs hp
+  obtain ⟨h1, h2, _⟩ := TextReader.slice_faithful (toDM fs) gt false (validM_agree fs gt hp hv)
+    (.gap gt (gap_of_blank hgt)) (fun _ => by rw [hr]; exact no_bom_clash _ hb)
+  simp only [TextReader.bomBytes, Bool.false_eq_true, ↓reduceIte, List.nil_append, hr] at h1 h2
+  refine ⟨h2, ?_⟩
+  rw [h1, List.map_map]
+  exact itemsM_agree fs hp
+
+/-- C02 end to end, stream path: for every document of the stream sub-fragment (`SPlainF`: scalars that are
+reader-safe -- no `@variable`, no leading `?` --, objects with unquoted keys and every operator, arrays,
+empty containers, header values; no ghost `{}`, no implicit `=`), every valid layout of it, both encodings
+and every root target type that requests the document's shape, the tokens the slice reader model produces
+from the BYTES deserialize to the value of the layout-free document. -/
+theorem C02_stream_end_to_end (enc : TextDe.Enc) (ty : TextDe.Ty) (fs : JFields) (gt : Bytes)
+    (hgt : Blank gt) (hv : JValidF fs gt) (hb : hasBom (jrenderF fs ++ gt) = false) (hp : SPlainF fs)
+    (hroot : Ty.isRoot ty = true) (hfit : Fits enc ty (.obj (toDoc fs))) :
+    (TextReader.sliceTokens (jrenderF fs ++ gt)).out = .end_ ∧
+    TextDe.deStream enc ty ((TextReader.sliceTokens (jrenderF fs ++ gt)).toks.map toRTok) = valueOf enc ty (toDoc fs) :=
+  ⟨(sliceLex_faithful fs gt hgt hv hb hp).1,
+   C02_stream_end_to_end_partial enc ty fs gt hv (splain_plainF fs hp) (sliceLex_faithful fs gt hgt hv hb hp) hroot hfit⟩
+
+/-- C02 end to end, both paths from the same BYTES: tape path = stream path = the document's value, for
+every valid layout. -/
+theorem C02_paths_end_to_end (enc : TextDe.Enc) (ty : TextDe.Ty) (fs : JFields) (gt : Bytes)
+    (hgt : Blank gt) (hv : JValidF fs gt) (hb : hasBom (jrenderF fs ++ gt) = false) (hp : SPlainF fs)
+    (hroot : Ty.isRoot ty = true) (hfit : FitsT enc false ty (.obj (toDoc fs))) :
+    ∃ T b, TextTape.parse (jrenderF fs ++ gt) = .ok T b ∧
+      TextDe.deTape enc ty (toTextDeTape T) = valueOf enc ty (toDoc fs) ∧
+      TextDe.deStream enc ty ((TextReader.sliceTokens (jrenderF fs ++ gt)).toks.map toRTok) = valueOf enc ty (toDoc fs) := by
+  obtain ⟨T, b, h1, h2⟩ := C02_tape_end_to_end enc ty fs gt hgt hv hb (splain_plainF fs hp) hroot hfit
+  exact ⟨T, b, h1, h2, (C02_stream_end_to_end enc ty fs gt hgt hv hb hp hroot (TextDe.fitsT_fits enc hfit)).2⟩
+
+/-- C02 end to end, streaming reader: the same for every fault-free read schedule and every buffer
+capacity that fits (`need ≤ cap`), via C07_stream_faithful. -/
+theorem C02_stream_end_to_end_scheduled (enc : TextDe.Enc) (ty : TextDe.Ty) (fs : JFields) (gt : Bytes)
+    (cap : Nat) (sched : List TextReader.Step)
+    (hgt : Blank gt) (hv : JValidF fs gt) (hb : hasBom (jrenderF fs ++ gt) = false) (hp : SPlainF fs)
+    (hw : TextReader.WfSched sched) (hnf : TextReader.NoFaults sched)
+    (hcap : TextReader.Spec.need (jrenderF fs ++ gt) ≤ cap)
+    (hroot : Ty.isRoot ty = true) (hfit : Fits enc ty (.obj (toDoc fs))) :
+    (TextReader.streamTokens cap sched (jrenderF fs ++ gt)).out = .end_ ∧
+    TextDe.deStream enc ty ((TextReader.streamTokens cap sched (jrenderF fs ++ gt)).toks.map toRTok)
+      = valueOf enc ty (toDoc fs) := by
+  obtain ⟨e1, e2, _⟩ := Jomini.Props.C07.C07_stream_eq_slice_fits (jrenderF fs ++ gt) cap sched hw hnf hcap
+  obtain ⟨s1, s2⟩ := C02_stream_end_to_end enc ty fs gt hgt hv hb hp hroot hfit
+  exact ⟨e2.trans s1, by rw [e1]; exact s2⟩
+
+/-- the stream sub-fragment is inhabited by C01's example document -/
+example : SPlainF exampleTree := by
+  have u : ∀ c : UInt8, TextTape.isBoundary c = false → TextTape.isBlank c = false → c ≠ 34 → c ≠ 64 → c ≠ 63 →
+      SafeScal (Scal.mk false [c]) := by
+    intro c h1 h2 h3 h4 h5
+    refine ⟨unq_valid c h1 h2 h3 h4, ?_⟩
+    intro _ c' r hc
+    simp only [List.cons.injEq] at hc
+    rw [← hc.1]; exact h5
+  simp only [exampleTree, SPlainF, SPlainV, SPlainVs, and_true, true_and]
+  exact ⟨u 97 (by decide +kernel) (by decide +kernel) (by decide) (by decide) (by decide),
+    ⟨u 49 (by decide +kernel) (by decide +kernel) (by decide) (by decide) (by decide),
+      ⟨u 98 (by decide +kernel) (by decide +kernel) (by decide) (by decide) (by decide),
+        u 99 (by decide +kernel) (by decide +kernel) (by decide) (by decide) (by decide)⟩⟩,
+    u 100 (by decide +kernel) (by decide +kernel) (by decide) (by decide) (by decide),
+    u 120 (by decide +kernel) (by decide +kernel) (by decide) (by decide) (by decide)⟩
+
 end Jomini.TextE2E
